@@ -32,7 +32,7 @@ def scripts(rnd, quick, F):
                         o = request(tr, 1, mem16, rnd.randint(0, 65535), rnd.getrandbits(32), n, [rnd.randint(0, 255) for _ in range(plen)])
                     else:
                         o = request(tr, 0, mem16, 7, 0x1000, 1)[:flen]
-                    sc.append(rx(tr, mem16, cap, wire(tr, o), verdict=rnd.choice([0, 0, 7])))
+                    sc.append(rx(tr, mem16, cap, wire(tr, o), verdict=rnd.choice([0, 0, 7]), allocfail=rnd.choice([0, 2])))
                 # read sizes around the transmit limit
                 for n in sorted(set(max(0, x) for x in [0, 1, (cap - 16) // ws - 1, (cap - 16) // ws, (cap - 16) // ws + 1, (cap - 14) // ws, (cap - 12) // ws, (cap - 12) // ws + 1,
                                                          cap // ws - 1, cap // ws, cap // ws + 1, 65535])):
@@ -41,7 +41,7 @@ def scripts(rnd, quick, F):
                 # allocation failure
                 for write in (0, 1):
                     o = request(tr, write, mem16, 0xC0DB, 0xDBC0, 2, [1, 2, 3, 4][:2 * ws] if write else [])
-                    sc.append(rx(tr, mem16, cap, wire(tr, o), allocfail=1))
+                    sc.append(rx(tr, mem16, cap, wire(tr, o), allocfail=rnd.choice([1, 3])))
     # truncated / mutated-valid / random streams (channel errors, framing octets hit)
     for _ in range(1500 if quick else 40000):
         tr = rnd.randint(0, 1)
